@@ -281,6 +281,7 @@ func genC08(c *Ctx) {
 		try(s.Router, "api", u[0], u[1], u[2], map[string]string{"Content-Type": "application/json"})
 	}
 	nReq += c08Receiver(c)
+	nReq += c08Ingest(c)
 	// ---- cfg op: URL configuration parser vs. the Lean model ----
 	intVals := []string{"0", "1", "-1", "2", "3", "4", "60", "900", "3600", "3601", "172800", "172801", "68719476736", "68719476737", "-68719476737",
 		"9223372036854775807", "9223372036854775808", "-9223372036854775808", "-9223372036854775809", "007", "-0", "x", "", "1.5", "1e3", "0x10", "1_0", "--1", "-", " 1", "1 "}
@@ -681,6 +682,149 @@ func c08Receiver(c *Ctx) int {
 		from = crash + 1
 	}
 	return len(cases)
+}
+
+// ---- ingest sessions through the API (child process: a crash of a session goroutine ends the whole process) ----
+
+type ingestJob struct {
+	Asset, Cfg, Mode, Events string
+	Now                      int
+}
+
+// c08Ingest: POST /api/cmaf-ingests + step + DELETE for a product of URL configurations (whole-segment and chunked
+// low-latency transfer, generated subtitles, SCTE-35, DRM, periods, start numbers) and receiver behaviours (accepts,
+// answers an upload with an error after / before reading the body, cannot be reached).  Every API call must return
+// within its deadline and the process must survive.
+func c08Ingest(c *Ctx) int {
+	r := c.Rng
+	var jobs []ingestJob
+	for _, mt := range []string{"", "segtimeline_1", "segtimelinenr_1"} {
+		for _, ll := range []string{"", "ato_1,chunkdur_1", "chunkdur_2", "ato_1.5,chunkdur_0.5"} {
+			for _, ex := range []string{"", "timesubsstpp_en", "timesubswvtt_en,sv", "scte35_1", "eccp_cenc", "periods_60", "snr_5", "tsbd_4", "start_90", "ltgt_2500"} {
+				var parts []string
+				for _, x := range []string{mt, ll, ex} {
+					if x != "" {
+						parts = append(parts, x)
+					}
+				}
+				cf := "-"
+				if len(parts) > 0 {
+					cf = strings.Join(parts, ",")
+				}
+				mode := r.PickS("ok", "late503", "early401", "unreachable")
+				jobs = append(jobs, ingestJob{"testpic_2s", cf, mode, r.PickS("ss", "sss", "sds"), 100300})
+			}
+		}
+	}
+	if !c.Thorough() {
+		// a fixed part (the combinations that have failed before) plus a sample
+		keep := []ingestJob{{"testpic_2s", "ato_1,chunkdur_1,timesubsstpp_en", "ok", "ss", 100300}, {"testpic_2s", "chunkdur_2", "late503", "sss", 100300},
+			{"testpic_2s", "segtimeline_1,ato_1,chunkdur_1", "early401", "sss", 100300}, {"testpic_2s", "chunkdur_2", "unreachable", "ss", 100300}}
+		for i := 0; i < 8; i++ {
+			keep = append(keep, jobs[r.Intn(len(jobs))])
+		}
+		jobs = keep
+	}
+	dir := filepath.Join(c.OutDir, "ingest")
+	_ = os.RemoveAll(dir)
+	_ = os.MkdirAll(dir, 0o755)
+	defer os.RemoveAll(dir)
+	jf := filepath.Join(dir, "jobs.jsonl")
+	f, err := os.Create(jf)
+	must(err)
+	enc := json.NewEncoder(f)
+	for _, j := range jobs {
+		must(enc.Encode(j))
+	}
+	f.Close()
+	line := func(j ingestJob) string {
+		return fmt.Sprintf("# ingest-api asset=%s cfg=%s receiver=%s events=%s nowMS=%d", j.Asset, j.Cfg, j.Mode, j.Events, j.Now)
+	}
+	from := 0
+	for from < len(jobs) {
+		cmd := exec.Command(os.Args[0], "c08ingest", jf, strconv.Itoa(from))
+		var se strings.Builder
+		cmd.Stderr = &se
+		out, _ := cmd.Output()
+		last, begun := from-1, -1
+		for _, ln := range strings.Split(string(out), "\n") {
+			fs := strings.Fields(ln)
+			if len(fs) >= 2 && fs[0] == "B" {
+				begun, _ = strconv.Atoi(fs[1])
+			}
+			if len(fs) >= 3 && fs[0] == "R" {
+				i, _ := strconv.Atoi(fs[1])
+				last = i
+				c.Count("req.ingest-api." + jobs[i].Mode)
+				if strings.HasPrefix(fs[2], "HANG") {
+					c.Violate("spin", "ingest API call does not return ("+fs[2]+")", []string{line(jobs[i])}, nil)
+				}
+			}
+		}
+		if last == len(jobs)-1 {
+			break
+		}
+		crash := last + 1
+		if begun > last {
+			crash = begun
+		}
+		why := "process exit"
+		for _, ln := range strings.Split(se.String(), "\n") {
+			if strings.HasPrefix(ln, "fatal error:") || strings.HasPrefix(ln, "panic:") {
+				why = strings.TrimSpace(ln)
+				break
+			}
+		}
+		var fr []string
+		for _, ln := range strings.Split(se.String(), "\n") {
+			if strings.Contains(ln, "/repo/") && len(fr) < 6 {
+				fr = append(fr, strings.TrimSpace(ln))
+			}
+		}
+		c.Violate("fatal", "ingest session: the whole livesim2 process dies ("+why+")", []string{line(jobs[crash])}, map[string]any{"stack": strings.Join(fr, " <- ")})
+		from = crash + 1
+	}
+	return len(jobs)
+}
+
+func c08IngestChild(args []string) {
+	if len(args) != 2 {
+		os.Exit(2)
+	}
+	data, err := os.ReadFile(args[0])
+	must(err)
+	from, _ := strconv.Atoi(args[1])
+	slog.SetDefault(slog.New(slog.NewTextHandler(io.Discard, nil)))
+	w := bufio.NewWriter(os.Stdout)
+	for i, ln := range strings.Split(strings.TrimSpace(string(data)), "\n") {
+		if i < from {
+			continue
+		}
+		var j ingestJob
+		must(json.Unmarshal([]byte(ln), &j))
+		fmt.Fprintf(w, "B %d\n", i)
+		w.Flush()
+		out, res := runSess([]string{j.Asset, j.Cfg, strconv.Itoa(j.Now), "-", j.Events}, func(sr *scriptedReceiver, setup map[string]any) {
+			switch j.Mode {
+			case "late503":
+				sr.failNth[3] = 503
+			case "early401":
+				sr.early[2] = 401
+				sr.early[5] = 401
+			case "unreachable":
+				setup["destRoot"] = "http://127.0.0.1:1/up"
+			}
+		})
+		st := "ok"
+		if res != nil && res.hung != "" {
+			st = "HANG:" + res.hung
+		} else if strings.Contains(out, "HANG") {
+			st = "HANG:" + strings.ReplaceAll(out, " ", "_")
+		}
+		fmt.Fprintf(w, "R %d %s\n", i, st)
+		w.Flush()
+		time.Sleep(20 * time.Millisecond) // let the session goroutines of the deleted session run into whatever they run into
+	}
 }
 
 // c08Child runs the upload cases from index `from` on an in-process receiver under an address-space limit.
